@@ -315,6 +315,12 @@ func (f *File) index() (map[string]*Message, map[string]bool) {
 	for _, e := range f.Enums {
 		enums[e.Name] = true
 	}
+	for _, sb := range f.Siblings {
+		walk("", sb.Messages)
+		for _, e := range sb.Enums {
+			enums[e.Name] = true
+		}
+	}
 	return msgs, enums
 }
 
@@ -362,6 +368,17 @@ func (b *specBuilder) message(full string, m *Message, path string) (*spec.Msg, 
 		}
 		out.Attrs = append(out.Attrs, as...)
 		out.Excluded = append(out.Excluded, ex...)
+	}
+	if len(out.Attrs) == 0 {
+		// every field is excluded (or is an embedded message that contributes nothing): the message
+		// is generated like a message with no fields
+		out.Empty = true
+		out.AllExcluded = true
+		out.Attrs = []*spec.Attr{{
+			Name: "active", Go: "", Path: path + ".active", Kind: spec.Prim, TF: "bool", GoT: "bool", Placeholder: true, Computed: true,
+			DescTokens: tokens("Automatically generated field preventing empty message errors"),
+		}}
+		return out, nil
 	}
 	if b.c.Sort {
 		sort.SliceStable(out.Attrs, func(i, j int) bool { return out.Attrs[i].Go < out.Attrs[j].Go })
@@ -487,6 +504,10 @@ func (b *specBuilder) field(full string, m *Message, mpath string, fl *Field) ([
 				return nil, nil, err
 			}
 			step := spec.EmbedStep{Go: goName, Nullable: a.Ptr}
+			if sm.AllExcluded {
+				// an embedded message all of whose fields are excluded adds nothing to its parent
+				sm.Attrs = nil
+			}
 			for _, ch := range sm.Attrs {
 				ch.Embed = append([]spec.EmbedStep{step}, ch.Embed...)
 			}
